@@ -1,6 +1,8 @@
 import PandoraModel.Properties.C02
 import PandoraModel.Properties.C02Zncc
 import PandoraModel.Properties.C02Kernels
+import PandoraModel.Properties.C02Census
+import PandoraModel.Properties.C02KernelsMc
 #print axioms Pandora.C02.popcount_source_eq_model
 #print axioms Pandora.C02.typeMeasure_source_eq_model
 #print axioms Pandora.C02.cmax_source_eq_model
@@ -54,3 +56,21 @@ import PandoraModel.Properties.C02Kernels
 #print axioms Pandora.C02Kernels.pointInterval_q_of_p
 #print axioms Pandora.C02Kernels.dspIndex_eq
 #print axioms Pandora.C02Kernels.dspIndex_toNat
+#print axioms Pandora.C02Census.bitCount_eq_rec
+#print axioms Pandora.C02Census.popcount32b_generated_eq_model
+#print axioms Pandora.C02Census.popcount32b_correct
+#print axioms Pandora.C02Census.popcount32b_correct_25
+#print axioms Pandora.C02Census.popcount32b_correct_9
+#print axioms Pandora.C02Census.popcount32b_le
+#print axioms Pandora.C02Census.popcount32b_no_wrap
+#print axioms Pandora.C02Census.bitCount_xor_eq_hamming
+#print axioms Pandora.C02Census.census_cost_eq_hamming
+#print axioms Pandora.C02KernelsMc.iRight_core
+#print axioms Pandora.C02KernelsMc.iRightCensus_eq
+#print axioms Pandora.C02KernelsMc.iRightSadSsd_eq
+#print axioms Pandora.C02KernelsMc.iRightZncc_eq
+#print axioms Pandora.C02KernelsMc.iRight_lt
+#print axioms Pandora.C02KernelsMc.pStd_mem
+#print axioms Pandora.C02KernelsMc.qStd_eq
+#print axioms Pandora.C02KernelsMc.std_lengths
+#print axioms Pandora.C02KernelsMc.shapes_eq_model
